@@ -77,15 +77,23 @@ var VBTuples = [][4]float32{
 	{0, 0, 48, 48},
 	{-10, 5, 30, 25},
 	{0.125, 0.125, 0.75, 1.25},
-	{5, 5, 5, 5},     // degenerate min == max
-	{-32, 7, -32, 9}, // degenerate in x only
-	{24, -24, -24, 24}, // inverted x
-	{-24, 24, 24, -24}, // inverted y
+	{5, 5, 5, 5},        // degenerate min == max
+	{-32, 7, -32, 9},    // degenerate in x only
+	{24, -24, -24, 24},  // inverted x
+	{-24, 24, 24, -24},  // inverted y
 	{1, 1, 0.984375, 2}, // inverted x by 1/64
 	{100.5, -300, 1000, 2},
 	{-64, -64, 63, 63},
 	{-128, -128, 127.984375, 127.984375},
+	// finite, non-inverted boxes whose extent overflows float32 (valid: only the coordinates are constrained)
+	{-bigF, -1, bigF, 1},
+	{-maxF30, -maxF30, maxF30, maxF30},
+	{0, -maxF30, 1, maxF30},
+	{math.Float32frombits(0x7149f2c8), math.Float32frombits(0xf149f2c8), math.Float32frombits(0x7149f2c8), math.Float32frombits(0x7149f2cc)},
 }
+
+var bigF = math.Float32frombits(0x7f167698) // ~2e38, low two mantissa bits zero
+var maxF30 = math.Float32frombits(0x7f7ffffc)
 
 var tails = [][]byte{nil, {0xc0, 0x80, 0x80, 0xe1}}
 
@@ -155,7 +163,7 @@ func MetaUnits(thorough bool) []Unit {
 		vb, pal := defVB(), defPal()
 		lists := [][]Chunk{{}, {ch(0, vb)}, {ch(1, pal)}, {ch(0, vb), ch(1, pal)}, {ch(1, pal), ch(0, vb)}, {ch(0, vb), ch(0, vb)},
 			{ch(1, pal), ch(1, pal)}, {ch(2, nil)}, {ch(2, []byte{1, 2, 3})}, {ch(1<<30-1, nil)}, {ch(0, vb), ch(2, nil)}, {ch(0, vb), ch(1, pal), ch(2, nil)},
-			{ch(0, vb), ch(1, pal), ch(1, pal)}, {ch(128, nil)}, {ch(1 << 14, nil)}}
+			{ch(0, vb), ch(1, pal), ch(1, pal)}, {ch(128, nil)}, {ch(1<<14, nil)}}
 		for _, l := range lists {
 			for _, dc := range []int{0, -1, 1} {
 				cnt := len(l) + dc
